@@ -417,7 +417,7 @@ func (c *VCtx) execInstr(fr *Frame, st *State, in ssa.Instruction, incoming map[
 			}
 			res = tup
 		}
-		fr.retVals = append(fr.retVals, retPath{st.clone(), res})
+		fr.retVals = append(fr.retVals, retPath{st.clone(), res, in.Block(), x.Pos()})
 		return false
 	case *ssa.Panic:
 		if fr.top || true {
